@@ -50,7 +50,7 @@ def required_reach(tier: str) -> dict[str, int]:
     from gallia.services.uds.core.constants import UDSErrorCodes
 
     # every defined response code must have gone through the code -> exception mapping
-    return {"#outcome.returned:": 19, "#outcome.mismatch:": 19, "#outcome.malformed:": 15, "#nrc.mapped:": len(UDSErrorCodes), "matches.direct": 100, "raw-untyped": 50}
+    return {"#outcome.returned:": 19, "#outcome.mismatch:": 19, "#outcome.malformed:": 15, "#nrc.mapped:": len(UDSErrorCodes), "matches.direct": 100, "raw-untyped": 50, "matches.direct.changed-echo": 500, "raise_for_mismatch.raised": 500}
 
 
 def outcome(parse_pdu: Any, exc: Any, reply: bytes, req: Any) -> tuple[str, Any]:
@@ -246,6 +246,44 @@ class Mon:
             return
         if not ok:
             ctx.violation(f"matches/{type(resp).__name__}/refuses-own-request", f"{type(resp).__name__}.matches is False for the {c.cls} it answers", {"cls": c.cls, "request": q, "reply": gen})
+            return
+        # the helper used by code that parses replies itself (parse_static + raise_for_mismatch, e.g. the HSFZ discovery)
+        try:
+            self.helpers.raise_for_mismatch(req, resp)
+        except Exception as e:
+            ctx.violation(f"raise_for_mismatch/genuine/{type(e).__name__}", "raise_for_mismatch raises for the genuine reply", {"cls": c.cls, "request": q, "reply": gen, "error": repr(e)})
+        # the same reply with one byte of the echoed primary identifier changed must be refused by the class' own matches()
+        echo = iso.primary_echo(q)
+        if echo is None:
+            return
+        what, eb = echo
+        for i in range(len(eb)):
+            ch = bytearray(gen)
+            ch[1 + i] ^= rng.choice([1, 0x10, 0x40])
+            chb = bytes(ch)
+            if iso.decode_response(chb) is None:
+                continue
+            try:
+                other = cls.RESPONSE_TYPE.from_pdu(chb)
+            except Exception:
+                ctx.reach("matches.direct.changed-unbuildable")
+                continue
+            ctx.reach("matches.direct.changed-echo")
+            try:
+                ok2 = other.matches(req)
+            except Exception as e:
+                ctx.violation(f"matches/{c.cls}/raises/{type(e).__name__}", "matches() raises", {"cls": c.cls, "request": q, "reply": chb, "error": repr(e)})
+                continue
+            if ok2:
+                ctx.violation(f"matches/{type(other).__name__}/accepts-changed[{what}]", f"{type(other).__name__}.matches is True for a reply whose echoed {what} differs from the request", {"cls": c.cls, "request": q, "reply": chb})
+                continue
+            try:
+                self.helpers.raise_for_mismatch(req, other)
+                ctx.violation(f"raise_for_mismatch/silent[{what}]", "raise_for_mismatch does not raise for a reply that does not match", {"cls": c.cls, "request": q, "reply": chb})
+            except self.exc.RequestResponseMismatch:
+                ctx.reach("raise_for_mismatch.raised")
+            except Exception as e:
+                ctx.violation(f"raise_for_mismatch/{type(e).__name__}", "raise_for_mismatch raises something other than RequestResponseMismatch", {"cls": c.cls, "request": q, "reply": chb, "error": repr(e)})
 
 
 def run(ctx: Any, params: dict[str, Any]) -> None:
